@@ -102,10 +102,64 @@ let nf_do name o =
   fx.fx_st <- fst r;
   emit (nf_line name r)
 
+(* ---------------- oracle: the extracted statement of C03 over the IMPLEMENTATION's observations ---------------- *)
+let nf_parse_evs s =
+  if s = "-" then [] else
+  List.map (fun t ->
+    if t = "C" then NfoClr
+    else begin
+      let body = String.sub t 1 (String.length t - 1) in
+      match String.split_on_char ':' body with
+      | [ty; us] ->
+        let ids = if us = "0" then [] else List.map (fun x -> z_of_int (int_of_string x)) (String.split_on_char '+' us) in
+        NfoDone (nf_type_of_bit (int_of_string ty), ids)
+      | _ -> failwith ("bad event token " ^ t)
+    end) (String.split_on_char ',' s)
+
+let oracle_c03_case script trace =
+  let fx = ref (nf_new_fix { pos = []; kv = [] }) in
+  let now = ref 0 in
+  let steps = ref [] in
+  let err = ref None in
+  let tr = ref trace in
+  let fail m = if !err = None then err := Some m in
+  List.iteri (fun li line ->
+    match parse_line line with
+    | Some ("nf_new", a) -> fx := nf_new_fix a
+    | Some ("nf_ctx", a) -> (!fx).fx_ctx <- nf_ctx_of !fx a
+    | Some ("now", a) -> now := tnum (List.hd a.pos)
+    | Some (("nf_req" | "nf_tick") as opn, a) ->
+      (match !tr with
+       | [] -> fail (Printf.sprintf "step=%d missing-observation" li)
+       | l :: rest ->
+         tr := rest;
+         if is_bad_line l then fail (Printf.sprintf "step=%d crash %s" li l) else begin
+           let t = toks_of l in
+           if List.hd t <> opn then fail (Printf.sprintf "step=%d missing-observation (got %s)" li (List.hd t)) else begin
+           let get k = match tok_val t k with Some v -> v | None -> "-" in
+           let op = if opn = "nf_req"
+             then NfRequest (z_of_int !now, (!fx).fx_ctx, nf_type_of_bit (num a "type" 32), num a "force" 0 <> 0)
+             else NfTick (z_of_int !now, (!fx).fx_ctx) in
+           let sup = try int_of_string (get "sup") with _ -> 0 in
+           steps := { os_op = op; os_evs = nf_parse_evs (get "ev"); os_stash_empty = (get "stash" = "-");
+                      os_sup_problem = (sup land 32 <> 0) } :: !steps
+           end
+         end)
+    | _ -> ()) script;
+  match !err with
+  | Some m -> Some m
+  | None ->
+    (match nf_oracle (!fx).fx_cfg (List.rev !steps) with
+     | (Some (idx, code), _) -> Some (Printf.sprintf "op=%s rule=%s class=delivery-rule" (zs idx) (zs code))
+     | (None, Some (idx, code)) ->
+       Some (Printf.sprintf "op=%s class=%s" (zs idx) (if int_of_z code = 100 then "stale-notified-users" else "nomore-reset"))
+     | (None, None) -> None)
+
 let () =
   register_op "nf_new" (fun a -> nf_fx := nf_new_fix a);
   register_op "nf_ctx" (fun a -> let fx = !nf_fx in fx.fx_ctx <- nf_ctx_of fx a);
   register_op "nf_req" (fun a ->
     let fx = !nf_fx in
     nf_do "nf_req" (NfRequest (z_of_int !now, fx.fx_ctx, nf_type_of_bit (num a "type" 32), num a "force" 0 <> 0)));
-  register_op "nf_tick" (fun _ -> let fx = !nf_fx in nf_do "nf_tick" (NfTick (z_of_int !now, fx.fx_ctx)))
+  register_op "nf_tick" (fun _ -> let fx = !nf_fx in nf_do "nf_tick" (NfTick (z_of_int !now, fx.fx_ctx)));
+  register_oracle "C03" oracle_c03_case
